@@ -427,6 +427,17 @@ class AttWorld:
         self.cfg_mtu[name] = sch.att_mtu
         return sch
 
+    def close_eatt(self, name, by='peer'):
+        """Disconnect an EATT bearer with a real L2CAP Disconnection Request sent by the
+        peer's channel object (by='peer') or by the server's (by='server')."""
+        sch, cch = self.eatt.pop(name)
+        self.world.run((cch if by == 'peer' else sch).disconnect())
+        self.world.settle()
+        self.captured.pop(name, None)
+        self.peer_rx.pop(name, None)
+        self.cfg_mtu.pop(name, None)
+        return sch
+
     # -- configuration ---------------------------------------------------------
     def bearer(self, kind='att'):
         return self.s_conn if kind == 'att' else self.eatt[kind][0]
